@@ -587,7 +587,7 @@ def judge_spelling(sc, obs):
 # connection is held, timeouts, raise_for_status — and several exchanges in a row on one session.  Whatever
 # happens to an exchange, its connection must not stay counted, and the session must stay usable.
 
-HOPS = ["ok", "redirect-301", "redirect-307-keep-body", "redirect-loop", "redirect-bad-location", "redirect-other-host",
+HOPS = ["ok", "redirect-301", "redirect-301-body-pending", "redirect-307-keep-body", "redirect-loop", "redirect-bad-location", "redirect-other-host",
         "peer-drops-before-response", "peer-drops-mid-headers", "peer-drops-mid-body", "malformed-status-line",
         "never-answers", "stalls-mid-body", "status-500", "bad-content-encoding"]
 MODES = ["read", "raise_for_status", "stream-keep", "release"]
@@ -616,6 +616,9 @@ class HopPeer(PeerTransport):
             self._send(ok)
         elif beh == "redirect-301":
             self._send(b"HTTP/1.1 301 Moved\r\nLocation: /final\r\nContent-Length: 3\r\n\r\nbye")
+        elif beh == "redirect-301-body-pending":
+            # the body of the redirect response never completes: following the redirect must not wait for it
+            self._send(b"HTTP/1.1 301 Moved\r\nLocation: /final\r\nContent-Length: 50\r\n\r\npartial")
         elif beh == "redirect-307-keep-body":
             self._send(b"HTTP/1.1 307 Temporary\r\nLocation: /final\r\nContent-Length: 0\r\n\r\n")
         elif beh == "redirect-loop":
@@ -724,6 +727,14 @@ def judge_hops(sc, obs):
     out = []
     if obs.get("quiescent"):
         return [("session/blocked-forever", f"{sc}: never completes: {obs}")]
+    # an exchange whose peer behaves must succeed — in particular it must not starve waiting for the slot of its own
+    # previous hop
+    expect = {"ok": "status:200", "redirect-301": "status:200", "redirect-301-body-pending": "status:200", "redirect-307-keep-body": "status:200",
+              "redirect-other-host": "status:200"}
+    for h, r in zip(sc["hops"], obs.get("results", [])):
+        if h in expect and r != expect[h]:
+            out.append((f"session/exchange-failed/{h}", f"exchange {h} ended with {r}, expected {expect[h]} (mode {sc['mode']})"))
+            break
     for i, n in enumerate(obs.get("acquired_after", [])):
         if n and sc["mode"] == "stream-keep" and obs["results"][i].startswith("error:"):
             # one root cause, one signature (the follow-on symptoms of the same scenario are not reported separately):
